@@ -270,6 +270,40 @@ def small_random_case(draw):
     return {"scores": scores, "kinds": kinds, "m": draw(st.integers(1, 6)), "b": draw(st.integers(0, 7))}
 
 
+@st.composite
+def long_case(draw):
+    """thousands of positions with hundreds to thousands of breaks (a contig with many labels off the diagonal), from
+    few draws"""
+    base = draw(st.lists(st.integers(-4, 4), min_size=20, max_size=50))
+    n = draw(st.sampled_from([1000, 2000, 2600, 4000, 6000]))
+    mul, add = draw(st.sampled_from([1, 3, 7, 11, 13])), draw(st.integers(0, 40))
+    mode = draw(st.sampled_from(["mixed", "mixed", "all-negative-then-match", "alternating"]))
+    if mode == "mixed":
+        scores = [base[(i * mul + add + (i * i) % 5) % len(base)] for i in range(n)]
+    elif mode == "alternating":
+        scores = [3 if i % 2 else -3 for i in range(n)]
+    else:
+        scores = [-1] * (n - 30) + [2] * 30
+    kinds = [0 if v > 0 else 1 + (i % 2) for i, v in enumerate(scores)]
+    return {"scores": scores, "kinds": kinds, "m": draw(st.integers(1, 6)), "b": draw(st.integers(0, 7))}
+
+
+@st.composite
+def tiny_case(draw):
+    """improvements and drops of 2^-40 next to scores of ordinary size: every value is a multiple of 2^-40 below 2^12, so
+    all sums are exact and the reference scan is authoritative"""
+    t = 2.0 ** -40
+    n = draw(st.integers(1, 12))
+    scores, kinds = [], []
+    for _ in range(n):
+        v = draw(st.sampled_from([1, 1, -0.5, 0.5, 2, -1, -2, 0, 1000, -250, 1024])) + draw(st.sampled_from([0, 0, t, -t, 2 * t]))
+        scores.append(v)
+        kinds.append(0 if v > 0 else draw(st.integers(0, 2)))
+    m = draw(st.sampled_from([1, 2, 0.5, 1 + t, 1000, 1 - t]))
+    b = draw(st.sampled_from([0, 1, 0.5, t, 2, 1200, 1 + t]))
+    return {"scores": scores, "kinds": kinds, "m": m, "b": b}
+
+
 def subchecks(tier):
     q = tier == "quick"
     return [
@@ -281,6 +315,10 @@ def subchecks(tier):
             describe="length<=200, scores sp-dp*d / su, CLI-range thresholds", shrink_budget=2000),
         Sub("float-scores", "hyp", check_float, strategy=float_case, examples=20000 if q else 400000, shrink_budget=1500,
             describe="inexact float scores with zero penalties: rounding-independent clauses only", required_classes=("has-zero-score",)),
+        Sub("long-lists", "hyp", check, strategy=long_case, examples=160 if q else 4000, shrink_budget=40,
+            describe="1000-6000 positions with hundreds to thousands of breaks"),
+        Sub("tiny-increments", "hyp", check, strategy=tiny_case, examples=16000 if q else 400000, shrink_budget=1500,
+            describe="scores differing by 2^-40 (exact sums): improvements far below any relative tolerance"),
         Sub("factory-history", "hyp", check_history, strategy=history_case, examples=16000 if q else 300000, shrink_budget=1500,
             describe="one factory instance reused for 2-4 position lists"),
         Sub("small-atheris", "fuzz", check, strategy=small_random_case, fuzz_runs=2000 if q else 150000,
